@@ -338,7 +338,7 @@ class Mismatch:
         return f"[{self.kind}] {self.req[:160]} | impl: {str(self.impl)[:160]} | model: {str(self.model)[:160]}"
 
 
-REGENERATED = ("cubecheck", "dump", "wfcheck", "classes", "memocheck", "alltt", "isocheck", "tabcheck", "pmemocheck", "nogoodcheck", "adopt", "presented", "ordercheck", "clirun", "memocheckn", "taskdone", "taskfin", "dbcheck", "isolation", "logins", "alone", "alone!", "result", "graphcheck", "runcheck", "stored")
+REGENERATED = ("cubecheck", "dump", "wfcheck", "classes", "memocheck", "alltt", "isocheck", "tabcheck", "pmemocheck", "nogoodcheck", "adopt", "presented", "ordercheck", "clirun", "clicheck", "memocheckn", "taskdone", "taskfin", "dbcheck", "isolation", "logins", "alone", "alone!", "result", "graphcheck", "runcheck", "stored")
 
 
 def case_requests(case):
